@@ -30,14 +30,22 @@ func mono() int64 { return int64(time.Since(epoch)) }
 
 // one real run of a rate trigger built from api.NewIterationWorker (through the constant
 // trigger's constructor when a distribution is wanted) with a logging rate function
-func oneRun(o *kit.Out, r *kit.Rand, forceSaturated bool) {
+func oneRun(o *kit.Out, r *kit.Rand, forceSaturated int) {
 	interval := time.Duration(kit.Pick(r, 5, 10, 20, 50, 100, 300)) * time.Millisecond
 	dist := kit.Pick(r, "none", "none", "regular", "random")
 	profile := r.Intn(3)
 	// saturated pool with idle ticks: one worker, bodies of almost half an interval, the
 	// profile asks for 8, 0, 0, 8, 0, 0, ...: a tick of 0 is a request like any other (it
 	// supersedes what is still pending), so nothing may start during the idle intervals
-	saturated := forceSaturated || r.Chance(20)
+	saturated := forceSaturated == 1 || (forceSaturated == 0 && r.Chance(20))
+	// a herd of idle workers and very short ticks of 1: thousands of races between the workers'
+	// failed claims and the next tick's request; every tick still requests exactly its value
+	herd := forceSaturated == 2
+	if herd {
+		interval = 20 * time.Microsecond
+		dist = "none"
+		profile = 4
+	}
 	if saturated {
 		interval = time.Duration(kit.Pick(r, 60, 100)) * time.Millisecond
 		dist = "none"
@@ -50,7 +58,7 @@ func oneRun(o *kit.Out, r *kit.Rand, forceSaturated bool) {
 	// a stall of the ticking goroutine (slow rate function, GC pause, starved process): one
 	// evaluation takes longer than a whole number of intervals plus a fraction
 	stallAt, stallFor := int64(-1), time.Duration(0)
-	if !saturated && r.Chance(35) {
+	if !saturated && !herd && r.Chance(35) {
 		stallAt = r.Range(0, 2)
 		stallFor = time.Duration(r.Range(1, 3))*interval + interval*time.Duration(r.Range(20, 80))/100
 		if dist != "none" {
@@ -71,6 +79,8 @@ func oneRun(o *kit.Out, r *kit.Rand, forceSaturated bool) {
 		k := int64(len(lg.times))
 		var v int64
 		switch profile {
+		case 4:
+			v = 1
 		case 3:
 			if k%3 == 0 {
 				v = 8
@@ -128,7 +138,7 @@ func oneRun(o *kit.Out, r *kit.Rand, forceSaturated bool) {
 	}
 	// scheduling noise: busy goroutines competing with the ticking goroutine
 	stopNoise := make(chan struct{})
-	if !saturated && r.Chance(50) {
+	if !saturated && !herd && r.Chance(50) {
 		for g := 0; g < runtime.GOMAXPROCS(0); g++ {
 			go func() {
 				for {
@@ -161,6 +171,10 @@ func oneRun(o *kit.Out, r *kit.Rand, forceSaturated bool) {
 	if saturated {
 		conc = 1
 		runFor = 7*interval + interval/2
+	}
+	if herd {
+		conc = 256
+		runFor = 1000 * time.Millisecond
 	}
 	cfg := runkit.Config{Mode: "custom", Scenario: scenario, Ctx: context.Background(),
 		Opts: options.RunOptions{MaxDuration: runFor, Concurrency: conc, IgnoreDropped: true}}
@@ -226,8 +240,11 @@ func TestC09(t *testing.T) {
 	defer o.Close()
 	r := kit.NewRand(kit.Seed() + 9)
 	n := kit.N(14, 120)
-	oneRun(o, r, true)
+	oneRun(o, r, 1)
+	for i := 0; i < kit.N(2, 8); i++ {
+		oneRun(o, r, 2)
+	}
 	for i := 0; i < n; i++ {
-		oneRun(o, r, false)
+		oneRun(o, r, 0)
 	}
 }
